@@ -59,12 +59,12 @@ theorem exOps_root : ∀ op ∈ exOps, op.Root (volName (hdrOf (formatted 10).ra
   rcases hop with rfl | rfl | rfl | rfl | rfl | rfl | rfl <;>
     exact ⟨rootPath_simple _ _ (by decide) (by decide) (by decide),
       fun p t a h => by cases h <;> omega,
-      fun f t h => by cases h <;> exact ⟨exF_args, by decide⟩⟩
+      fun f t h => by cases h <;> exact exF_args⟩
 
 /-- the hypotheses of `put_refines'` are met -/
 example : Refines (formatted 10) (put exF exTime repaired (formatted 10))
     (.put (upper (upper (str "a"))) exF.chunks exF.eof 6 (0 + 256 * 0x20)) :=
-  put_refines' formatted10_sinv exF exTime (upper (str "a")) exF_args (by decide)
+  put_refines' formatted10_sinv exF exTime (upper (str "a")) exF_args
     (normalizePath_simple _ _ (by decide) (by decide) (by decide) (volName_len _)) (by decide)
 
 example : validFrom prodosParams (volOf (formatted 10).raw) (trace (volName (hdrOf (formatted 10).raw)) (formatted 10) exOps) ∧
